@@ -5,7 +5,10 @@ from .. import paths as P
 from ..facts import nhir, walk
 
 META = ("other",
-        "C15.R1 every take(&mut self) -> Self returns a struct literal that initialises every field f from self.f only "
+        "C15.R1/R4 by interpretation: every take(&mut self) -> Self and every clear_*/reset_* function is interpreted on a "
+        "statement whose fields hold opaque markers (nested builders: structs of markers) - the result holds field-wise what self "
+        "held, query statements are left equal to the derived Default, a clear function changes exactly its field, to the Default "
+        "value; code outside the interpreter's fragment is decided by the shape rules:  C15.R1 every take(&mut self) -> Self returns a struct literal that initialises every field f from self.f only "
         "(Option::take, mem::take, mem::replace, Copy read, clone) and, for query statements, leaves every field at its "
         "Default so the remainder equals new(); R2 Clone and PartialEq are compiler-derived on the whole type closure of the "
         "statement types (or a reviewed manual impl); R3 every such type is Freeze and the shared SeaRc pointer is never "
@@ -130,10 +133,111 @@ def take_fns(f):
     return out
 
 
+def _veq(a, b):
+    from ..interp import Opaque, Var
+    if isinstance(a, Opaque) or isinstance(b, Opaque):
+        return isinstance(a, Opaque) and isinstance(b, Opaque) and a.tag == b.tag
+    if isinstance(a, dict) or isinstance(b, dict):
+        return isinstance(a, dict) and isinstance(b, dict) and sorted(a) == sorted(b) and all(_veq(a[k], b[k]) for k in a)
+    if isinstance(a, (list, tuple)) or isinstance(b, (list, tuple)):
+        return type(a) is type(b) and len(a) == len(b) and all(_veq(x, y) for x, y in zip(a, b))
+    if isinstance(a, Var) or isinstance(b, Var):
+        return isinstance(a, Var) and isinstance(b, Var) and a.d == b.d and _veq(list(a.fields), list(b.fields))
+    return a == b
+
+
+def _copy(v):
+    if isinstance(v, dict):
+        return {k: _copy(x) for k, x in v.items()}
+    if isinstance(v, list):
+        return [_copy(x) for x in v]
+    return v
+
+
+def take_by_interp(f, name, adt, takers):
+    """interpret take() on a statement whose every field holds an opaque marker (nested builders that have their own
+    take(): a struct of markers).  Returns (fields, result, remainder, fresh) or raises Unsupported"""
+    from ..interp import Interp, Opaque, Unsupported
+
+    def mk(a, prefix, depth=0):
+        out = {}
+        for x in f.adts[a]["variants"][0]["fields"]:
+            t = f.ty(x["ty"])
+            if t in takers and t in f.adts and depth < 3:
+                out[x["name"]] = mk(t, prefix + x["name"] + ".", depth + 1)
+            else:
+                out[x["name"]] = Opaque(prefix + x["name"])
+        return out
+    me = mk(adt, "self.")
+    before = _copy(me)
+    it = Interp(f)
+    it.free_opaque = True
+    it.max_depth = 10
+
+    def mentions_self(v, depth=0):
+        if isinstance(v, Opaque):
+            return v.tag.startswith("self.")
+        if isinstance(v, dict):
+            return v is me or any(mentions_self(x, depth + 1) for x in v.values())
+        if isinstance(v, (list, tuple)):
+            return any(mentions_self(x, depth + 1) for x in v)
+        return hasattr(v, "fields") and any(mentions_self(x, depth + 1) for x in v.fields)
+
+    def unknown(it_, e, env, depth):
+        # a call outside the crate (Rc::new, ..) builds a fresh value - as long as nothing of the statement is handed to it
+        vals = ([it_.ev(e["recv"], env, depth)] if e.get("k") == "mcall" else []) + [it_.ev(a, env, depth) for a in e.get("args") or []]
+        if any(mentions_self(v) for v in vals):
+            raise Unsupported("call %s on part of the statement" % (e.get("callee") or e.get("name")))
+        return Opaque("fresh:%s" % (e.get("callee") or e.get("name")))
+    it.unknown_call = unknown
+    r = it.call_fn(name, [me])
+    if not isinstance(r, dict):
+        raise Unsupported("take() returns %r" % (r,))
+    if it.out:
+        raise Unsupported("take() writes text")
+    fresh = None
+    it2 = Interp(f)
+    it2.free_opaque = True
+    dfl = f.impl_fn("core::default::Default", adt, "default")
+    if dfl and dfl in f.fns:
+        fresh = it2.call_fn(dfl, [])
+    return before, r, me, fresh
+
+
+def check_take_interp(run, f, cfg, name, fn, adt, takers):
+    """True when decided by interpretation"""
+    from ..interp import Unsupported as U, Diverged as D
+    global Unsupported
+    Unsupported = U
+    short = adt.rsplit("::", 1)[-1]
+    try:
+        before, r, after, fresh = take_by_interp(f, name, adt, takers)
+    except (U, D) as e:
+        run.notes.append("C15.R1 %s::take outside the interpreter's fragment (%s): decided by its struct literal" % (short, e))
+        return False
+    fields = [x["name"] for x in f.adts[adt]["variants"][0]["fields"]]
+    run.ob("C15.R1", "take:%s:complete" % short, sorted(r) == sorted(fields), "%s::take returns a value with every field of the struct" % short, sp=fn["sp"], cfg=cfg)
+    for fl in fields:
+        ok = fl in r and _veq(r[fl], before[fl])
+        run.ob("C15.R1", "take:%s:%s" % (short, fl), ok,
+               "%s::take (interpreted on a statement of opaque markers): field `%s` of the result is what self.%s held%s" % (
+                   short, fl, fl, "" if ok else " - NOT: it is %r" % (r.get(fl),)), sp=fn["sp"], cfg=cfg)
+        if adt in QUERY_STATEMENTS:
+            ok2 = fresh is not None and fl in after and fl in fresh and _veq(after[fl], fresh[fl])
+            run.ob("C15.R1", "take:%s:%s:remainder" % (short, fl), ok2,
+                   "%s::take leaves `%s` as in a newly constructed statement%s" % (short, fl, "" if ok2 else " - NOT: left %r, fresh %r" % (after.get(fl), (fresh or {}).get(fl))),
+                   sp=fn["sp"], cfg=cfg)
+    run.ob("C15.R1", "take:%s:no-other-effect" % short, True, "%s::take (interpreted) calls nothing outside the modelled moves and constructors" % short, sp=fn["sp"], cfg=cfg)
+    return True
+
+
 def check_take(run, f, cfg):
     tfs = take_fns(f)
+    takers = set(t[2] for t in tfs)
     for name, fn, adt in sorted(tfs):
         short = adt.rsplit("::", 1)[-1]
+        if check_take_interp(run, f, cfg, name, fn, adt, takers):
+            continue
         ps = [p for p in P.fn_paths(fn["hir"]) if p.out != "diverge"]
         if len(ps) != 1:
             run.anchor("C15.R1", "take:" + short, "take() of %s is not a single-path function" % short, cfg)
@@ -248,6 +352,38 @@ def check_sharing(run, f, cfg, cl):
     run.ob("C15.R3", "rc-census", True, "%d Rc/Arc calls in the crate, none mutates through the shared pointer" % nc, cfg=cfg)
 
 
+def clear_by_interp(run, f, cfg, name, fn, field, short):
+    """interpret a clear_* / reset_* function on a statement of opaque markers: exactly `field` changes, to the value it has
+    in a default-constructed statement.  True when decided"""
+    from ..interp import Interp, Opaque, Unsupported, Diverged
+    impl = f.impl_of(fn)
+    adt = (impl or {}).get("self_adt")
+    if not adt or adt not in f.adts:
+        return False
+    me = {x["name"]: Opaque("self." + x["name"]) for x in f.adts[adt]["variants"][0]["fields"]}
+    before = dict(me)
+    try:
+        it = Interp(f)
+        it.free_opaque = True
+        it.call_fn(name, [me])
+        dfl = f.impl_fn("core::default::Default", adt, "default")
+        it2 = Interp(f)
+        it2.free_opaque = True
+        fresh = it2.call_fn(dfl, []) if dfl and dfl in f.fns else None
+    except (Unsupported, Diverged) as e:
+        run.notes.append("C15.R4 %s outside the interpreter's fragment (%s): decided on its MIR" % (short, e))
+        return False
+    if fresh is None or field not in fresh:
+        return False
+    changed = sorted(k for k in before if not _veq(me.get(k), before[k]))
+    run.ob("C15.R4", "clear:%s:only-field" % short, changed == [field], "%s changes exactly the field `%s` (interpreted on a statement of opaque markers)" % (short, field),
+           sp=fn["sp"], cfg=cfg, detail=changed)
+    ok = _veq(me.get(field), fresh[field])
+    run.ob("C15.R4", "clear:%s:empty" % short, ok, "%s leaves `%s` as in a default-constructed statement%s" % (short, field, "" if ok else " - NOT: %r" % (me.get(field),)),
+           sp=fn["sp"], cfg=cfg)
+    return True
+
+
 def check_clear(run, f, cfg):
     n = 0
     for name, field in sorted(CLEARERS.items()):
@@ -257,6 +393,8 @@ def check_clear(run, f, cfg):
             run.anchor("C15.R4", "clear:" + short, "%s not found" % name, cfg)
             continue
         n += 1
+        if clear_by_interp(run, f, cfg, name, fn, field, short):
+            continue
         b = M.Body(f, name)
         ws = M.self_writes(b)
         fields = sorted(set(w[2] for w in ws))
